@@ -109,7 +109,7 @@ GlobalNames(ss) == IF ss = <<>> THEN <<>> ELSE (IF Head(ss).k = "var" THEN <<Hea
 Distinct(q) == \A a, b \in 1..Len(q) : q[a] = q[b] => a = b
 Body(k) == LET s == SeedProp * 65536 + Slice * 4096 + k IN Stmts(s, 1, 6 + RandInt(s, 0, 5), 2, <<>>, 0)
 Cases == SelectSeq([k \in 1..NRandom |-> [key |-> "gen" \o IntStr(Slice) \o "." \o IntStr(SeedProp) \o "." \o IntStr(k), b |-> Body(k)]], LAMBDA x : Distinct(GlobalNames(x.b)))
-Programs == [i \in 1..Len(Cases) |-> LayoutProg(Prelude \o Cases[i].b \o ShowAll, 1)]
+Programs == TLCEval([i \in 1..Len(Cases) |-> LayoutProg(Prelude \o Cases[i].b \o ShowAll, 1)])
 FamProgOf(i) == Programs[i]
 Init == \E i \in 1..Len(Programs) : InitSem(i, <<>>, FALSE)
 Next == SemNext
